@@ -11,14 +11,18 @@ import (
 	"encoding/json"
 	"errors"
 	"fmt"
+	"hash"
+	"hash/adler32"
+	"hash/crc32"
+	"hash/fnv"
 	"io"
-	"testing/iotest"
 	"os"
 	"os/exec"
 	"sort"
 	"strconv"
 	"strings"
 	"sync"
+	"testing/iotest"
 	"time"
 
 	"github.com/gregoryv/mq"
@@ -229,6 +233,45 @@ func checkVbBytes(r *report, bs []byte) {
 	}
 }
 
+// vbCallSites: bs is an unterminated variable byte integer (continuation bytes only); frames of
+// every type that end inside it - as property length, or as a subscription identifier that is
+// the last thing in the frame - must be rejected by ReadPacket.
+func vbCallSites(r *report, bs []byte) {
+	heads := [][]byte{
+		{0x20, 0, 0x00, 0x00},       // CONNACK flags, reason code
+		{0x40, 0, 0x00, 0x01, 0x00}, // PUBACK id, reason code
+		{0x50, 0, 0x00, 0x01, 0x10},
+		{0x62, 0, 0x00, 0x01, 0x00},
+		{0x70, 0, 0x00, 0x01, 0x00},
+		{0x82, 0, 0x00, 0x01},      // SUBSCRIBE id
+		{0x90, 0, 0x00, 0x01},      // SUBACK id
+		{0xa2, 0, 0x00, 0x01},      // UNSUBSCRIBE id
+		{0xb0, 0, 0x00, 0x01},      // UNSUBACK id
+		{0xe0, 0, 0x00},            // DISCONNECT reason code
+		{0xf0, 0, 0x18},            // AUTH reason code
+		{0x30, 0, 0x00, 0x01, 't'}, // PUBLISH topic
+		{0x10, 0, 0x00, 0x04, 'M', 'Q', 'T', 'T', 0x05, 0x00, 0, 0}, // CONNECT up to keep alive
+	}
+	for _, h := range heads {
+		f := append(append([]byte{}, h...), bs...)
+		f[1] = byte(len(f) - 2)
+		if o := readOnce(oneChunk(f)); o.kind >= 0 || o.panic {
+			r.fail("vb-accepts-unterminated", "R 1 "+hexs(f), "a frame that ends inside its property length ("+hexs(bs)+") was taken: "+trunc(o.verdict()))
+		}
+		r.eval("call-site-unterminated", true, hexs(f))
+	}
+	// subscription identifier as the last property: the property length is exact, the identifier is cut
+	for _, h := range [][]byte{{0x82, 0, 0x00, 0x01}, {0x30, 0, 0x00, 0x01, 't'}} {
+		f := append(append([]byte{}, h...), byte(1+len(bs)), 0x0b)
+		f = append(f, bs...)
+		f[1] = byte(len(f) - 2)
+		if o := readOnce(oneChunk(f)); o.kind >= 0 || o.panic {
+			r.fail("vb-accepts-unterminated", "R 1 "+hexs(f), "a frame that ends inside a subscription identifier ("+hexs(bs)+") was taken: "+trunc(o.verdict()))
+		}
+		r.eval("call-site-unterminated", true, hexs(f))
+	}
+}
+
 func oracleC15(r *report, g *G, n int, single string) {
 	if single != "" {
 		f := splitWS(single)
@@ -244,6 +287,13 @@ func oracleC15(r *report, g *G, n int, single string) {
 		if len(f) >= 2 && f[0] == "H" {
 			k, _ := strconv.Atoi(f[1])
 			roundTrip(r, k, f[2:])
+		}
+		if len(f) == 3 && f[0] == "R" {
+			// a frame that ends inside a variable byte integer
+			fr := unhex(firstChunk(f[2]))
+			if o := readOnce(oneChunk(fr)); len(fr) > 0 && fr[len(fr)-1]&128 != 0 && (o.kind >= 0 || o.panic) {
+				r.fail("vb-accepts-unterminated", single, "taken: "+trunc(o.verdict()))
+			}
 		}
 		return
 	}
@@ -394,6 +444,18 @@ func oracleC15(r *report, g *G, n int, single string) {
 				r.eval("packet-level-five-bytes", true, hexs(f))
 			}
 		}
+	}
+	// a frame that ends on a continuation byte of its property length or of a subscription
+	// identifier is rejected, whatever bits the continuation bytes carry (all zero included):
+	// every packet type with a property section, one to four continuation bytes
+	var conts [][]byte
+	for l := 1; l <= 4; l++ {
+		for _, pat := range [][]byte{{0x80, 0x80, 0x80, 0x80}, {0x81, 0x80, 0x80, 0x80}, {0x80, 0x80, 0x80, 0x81}, {0xff, 0xff, 0xff, 0xff}, {0x80, 0xff, 0x80, 0xff}} {
+			conts = append(conts, append([]byte{}, pat[4-l:]...))
+		}
+	}
+	for _, bs := range conts {
+		vbCallSites(r, bs)
 	}
 	// the property length and the subscription identifiers at their call sites: packets whose
 	// property section is exactly 126..129, 255..257, 383..385, 512, 16383..16385 bytes long,
@@ -953,7 +1015,9 @@ func oracleAlloc(r *report, g *G) {
 	for _, count := range []int{3000, 6000} {
 		ups := many(up, count)
 		sec := append(vbEnc(uint64(len(ups))), ups...)
-		frame := func(b0 byte, body []byte) []byte { return append(append([]byte{b0}, vbEnc(uint64(len(body)))...), body...) }
+		frame := func(b0 byte, body []byte) []byte {
+			return append(append([]byte{b0}, vbEnc(uint64(len(body)))...), body...)
+		}
 		sids := many([]byte{0x0b, 5}, count)
 		measureBig := func(f []byte, class string) {
 			var m0, m1 runtimeMem
@@ -982,6 +1046,18 @@ func oracleAlloc(r *report, g *G) {
 		measureBig(frame(0x82, append([]byte{0, 7, 0}, many([]byte{0, 1, 'f', 1}, count)...)), "SUBSCRIBE filters")
 		measureBig(frame(0xa2, append([]byte{0, 7, 0}, many([]byte{0, 1, 'f'}, count)...)), "UNSUBSCRIBE filters")
 		measureBig(frame(0x90, append([]byte{0, 7, 0}, many([]byte{1}, count*4)...)), "SUBACK reason codes")
+	}
+	// a property length that promises far more than the frame holds (up to 256 MiB), followed by
+	// one or two properties: every type with a property section, and the will's section
+	for _, L := range []uint64{1 << 14, 1 << 21, 1 << 22, 1 << 24, 1<<28 - 1} {
+		for _, props := range [][]byte{{0x26, 0, 1, 'k', 0, 1, 'v'}, {0x26, 0, 1, 'k', 0, 1, 'v', 0x26, 0, 1, 'k', 0, 1, 'w'}, {0x1f, 0, 1, 'r'}, {0x0b, 5}, {0x0b, 5, 0x26, 0, 1, 'k', 0, 1, 'v'}} {
+			for _, h := range [][]byte{{0x20, 0, 0}, {0x40, 0, 1, 0}, {0x50, 0, 1, 0}, {0x62, 0, 1, 0}, {0x70, 0, 1, 0}, {0x82, 0, 1}, {0x90, 0, 1},
+				{0xa2, 0, 1}, {0xb0, 0, 1}, {0xe0, 0}, {0xf0, 0x18}, {0x30, 0, 1, 't'}, {0x32, 0, 1, 't', 0, 9},
+				{0x10, 0, 4, 'M', 'Q', 'T', 'T', 5, 2, 0, 9}, {0x10, 0, 4, 'M', 'Q', 'T', 'T', 5, 6, 0, 9, 0, 0, 1, 'c'}} {
+				body := append(append(append([]byte{}, h[1:]...), vbEnc(L)...), props...)
+				measure(append(append([]byte{h[0]}, vbEnc(uint64(len(body)))...), body...), "alloc-long-property-length")
+			}
+		}
 	}
 	for _, f := range [][]byte{{0x30, 3, 0xff, 0xff, 'a'}, {0x30, 3, 0xff, 0xfe, 'a'}, {0xa2, 6, 0, 1, 0, 0xff, 0xff, 'a'},
 		{0x82, 6, 0, 1, 0, 0xff, 0xff, 'a'}, {0x10, 4, 0xff, 0xff, 'M', 'Q'}, {0xe0, 7, 0, 5, 0x26, 0xff, 0xff, 'a', 'b'},
@@ -1014,7 +1090,10 @@ func bigFrameStreams(r *report, g *G, bounded bool) {
 		stream := append(append([]byte{}, frame...), tail...)
 		c := fmt.Sprintf("R 1 %s... (%d-byte frame followed by %d bytes)", hexs(frame[:12]), len(frame), len(tail))
 		for _, mk := range []func() (io.Reader, func() int){
-			func() (io.Reader, func() int) { rd := oneChunk(stream); return rd, func() int { return len(stream) - rd.got } },
+			func() (io.Reader, func() int) {
+				rd := oneChunk(stream)
+				return rd, func() int { return len(stream) - rd.got }
+			},
 			func() (io.Reader, func() int) { b := bytes.NewBuffer(append([]byte{}, stream...)); return b, b.Len },
 			func() (io.Reader, func() int) { b := bytes.NewReader(stream); return b, b.Len },
 			func() (io.Reader, func() int) {
@@ -1954,6 +2033,33 @@ func (g *G) domainCalls(k int) []string {
 	return cs
 }
 
+// roundTripRec: the accessors of the built packet are first compared with the record of the
+// values its own setters were given (what the program does with its own variables afterwards is
+// not a call on the packet), then the packet goes through roundTrip.
+func roundTripRec(r *report, k int, cs []string) {
+	c := "H " + strconv.Itoa(k) + sp(cs)
+	ok := func() (ok bool) {
+		defer func() {
+			if e := recover(); e != nil {
+				r.fail("roundtrip-panic", c, fmt.Sprint(e))
+			}
+		}()
+		p := build(k, cs)
+		rec := newSpec(k)
+		for _, call := range cs {
+			rec.apply(call)
+		}
+		if got, want := snapshot(p), rec.snapshot(); got != want {
+			r.fail("roundtrip-accessors", c, "set "+trunc(want)+" but the packet reports (and writes) "+trunc(got))
+			return false
+		}
+		return true
+	}()
+	if ok {
+		roundTrip(r, k, cs)
+	}
+}
+
 func roundTrip(r *report, k int, cs []string) {
 	c := "H " + strconv.Itoa(k) + sp(cs)
 	defer func() {
@@ -2275,7 +2381,11 @@ func oracleC01(r *report, g *G, n int, single string) {
 				cs = f[3:]
 			}
 			if k != 0 {
-				roundTrip(r, k, cs)
+				if strings.Contains(single, "~Reuse") {
+					roundTripRec(r, k, cs)
+				} else {
+					roundTrip(r, k, cs)
+				}
 			}
 		}
 		return
@@ -2296,7 +2406,21 @@ func oracleC01(r *report, g *G, n int, single string) {
 		if g.chance(25) {
 			cs = g.interleaveRO(cs) // written or printed before it was complete
 		}
+		if k == 8 && g.chance(40) {
+			// the program goes on using the TopicFilter variables it passed to AddFilters: the
+			// packet must still hold, write and read back the values that were set on it
+			cs = append(cs, "~Reuse")
+			if g.chance(50) {
+				cs = append(cs, "AddFilter:"+hexs(g.nonEmpty())+":1")
+			}
+			roundTripRec(r, k, cs)
+			continue
+		}
 		roundTrip(r, k, cs)
+	}
+	for _, f := range []string{"73656e736f72732f6b69746368656e2f74656d70", "61", "612f622f63"} {
+		roundTripRec(r, 8, []string{"SetPacketID:5", "AddFilter:" + f + ":1", "~Reuse"})
+		roundTripRec(r, 8, []string{"SetPacketID:5", "AddFilter:" + f + ":1", "AddFilter:" + f + ":2", "~WriteTo", "~Reuse", "AddFilter:62:0"})
 	}
 	g.big = true
 	g.domain = true
@@ -2354,6 +2478,50 @@ func oracleC01(r *report, g *G, n int, single string) {
 
 // ---------------------------------------------------------------- C10
 
+// richWriter takes bytes through Write and through the optional interfaces the io package looks
+// for, up to a budget; once the budget is used up every further byte is refused with err.
+type richWriter struct {
+	budget int
+	err    error
+	got    []byte
+}
+
+func (w *richWriter) Write(p []byte) (int, error) {
+	n := len(p)
+	if n > w.budget {
+		n = w.budget
+	}
+	w.got = append(w.got, p[:n]...)
+	w.budget -= n
+	if n < len(p) {
+		return n, w.err
+	}
+	return n, nil
+}
+func (w *richWriter) WriteByte(b byte) error {
+	_, err := w.Write([]byte{b})
+	return err
+}
+func (w *richWriter) WriteString(s string) (int, error) { return w.Write([]byte(s)) }
+func (w *richWriter) ReadFrom(r io.Reader) (int64, error) {
+	var total int64
+	buf := make([]byte, 512)
+	for {
+		n, err := r.Read(buf)
+		m, werr := w.Write(buf[:n])
+		total += int64(m)
+		if werr != nil {
+			return total, werr
+		}
+		if err == io.EOF {
+			return total, nil
+		}
+		if err != nil {
+			return total, err
+		}
+	}
+}
+
 func oracleC10(r *report, g *G, n int, single string) {
 	check := func(k int, cs []string) {
 		c := "W " + strconv.Itoa(k) + " A" + sp(cs)
@@ -2406,6 +2574,26 @@ func oracleC10(r *report, g *G, n int, single string) {
 			n2, err2 := p.WriteTo(sw)
 			if len(sw.calls) != 1 || !bytesEq(sw.calls[0], f) || int(n2) != kk || err2 != e {
 				r.fail("write-short", fmt.Sprintf("W %d S%d:1%s", k, kk, sp(cs)), fmt.Sprintf("n=%d err=%v calls=%d", n2, err2, len(sw.calls)))
+			}
+		}
+		// a writer that also offers the optional fast paths of the io package (WriteByte,
+		// WriteString, ReadFrom) and a budget of k bytes over all of them: whichever way the
+		// bytes are handed over, the count returned is the number of bytes the writer took
+		for _, kk := range append([]int{len(f), len(f) + 5}, ks...) {
+			e := injectedErr(1 + g.pick(9))
+			rw := &richWriter{budget: kk, err: e}
+			n4, err4 := p.WriteTo(rw)
+			took := kk
+			if took > len(f) {
+				took = len(f)
+			}
+			wantErr := error(nil)
+			if kk < len(f) {
+				wantErr = e
+			}
+			if int(n4) != len(rw.got) || !bytesEq(rw.got, f[:took]) || err4 != wantErr {
+				r.fail("write-short", fmt.Sprintf("W %d S%d:1%s", k, kk, sp(cs)), fmt.Sprintf("a writer with WriteByte/WriteString/ReadFrom and room for %d bytes took %d bytes (%s), WriteTo returned n=%d err=%v; the frame is %s", kk, len(rw.got), trunc(hexs(rw.got)), n4, err4, trunc(hexs(f))))
+				break
 			}
 		}
 		e := injectedErr(3)
@@ -4071,6 +4259,13 @@ func oracleC02(r *report, g *G, n int, single string) {
 			if g.chance(25) {
 				cs = g.interleaveRO(cs) // written or printed before it was complete
 			}
+			if k == 8 && g.chance(40) {
+				// the program goes on using the TopicFilter variables it passed to AddFilters
+				cs = append(cs, "~Reuse")
+				if g.chance(50) {
+					cs = append(cs, "AddFilter:"+hexs(g.nonEmpty())+":1")
+				}
+			}
 			if hasSetter(k, "AddUserProp") && g.chance(20) {
 				var items []string
 				g.domain = true
@@ -4144,6 +4339,114 @@ func readLinesArg(args []string) []string {
 		}
 	}
 	return nil
+}
+
+// collidingKeys: pairs of different strings of equal length that collide under the unkeyed 32-bit
+// hash functions a cache or an intern table is likely to use (found by a birthday search at run
+// time, the same pairs on every run).  A decoder that identifies a string by such a hash gives
+// the second of a pair the text of the first.
+var collidingOnce sync.Once
+var collidingPairs [][2]string
+
+func collidingKeys() [][2]string {
+	collidingOnce.Do(func() {
+		low := func(h hash.Hash64, s string) uint32 { h.Reset(); h.Write([]byte(s)); return uint32(h.Sum64()) }
+		h32 := func(h hash.Hash32, s string) uint32 { h.Reset(); h.Write([]byte(s)); return h.Sum32() }
+		f32a, f32, f64a, f64 := fnv.New32a(), fnv.New32(), fnv.New64a(), fnv.New64()
+		cast := crc32.MakeTable(crc32.Castagnoli)
+		hashes := []func(string) uint32{
+			func(s string) uint32 { return h32(f32a, s) },
+			func(s string) uint32 { return h32(f32, s) },
+			func(s string) uint32 { return low(f64a, s) },
+			func(s string) uint32 { return low(f64, s) },
+			func(s string) uint32 { return crc32.ChecksumIEEE([]byte(s)) },
+			func(s string) uint32 { return crc32.Checksum([]byte(s), cast) },
+			func(s string) uint32 { return adler32.Checksum([]byte(s)) },
+			func(s string) uint32 {
+				h := uint32(5381)
+				for i := 0; i < len(s); i++ {
+					h = h*33 + uint32(s[i])
+				}
+				return h
+			},
+			func(s string) uint32 {
+				h := uint32(0)
+				for i := 0; i < len(s); i++ {
+					h = h*31 + uint32(s[i])
+				}
+				return h
+			},
+		}
+		const N = 400000
+		key := func(i int) string {
+			// ten characters spread over the alphabet (strings that differ in a few digits only
+			// collide far less often than the birthday bound under FNV)
+			x := (uint64(i) + 1) * 0x9e3779b97f4a7c15
+			b := make([]byte, 10)
+			for j := range b {
+				b[j] = "abcdefghijklmnopqrstuvwxyz012345"[x&31]
+				x >>= 5
+			}
+			return string(b)
+		}
+		for _, h := range hashes {
+			seen := make(map[uint32]int32, N)
+			found := 0
+			for i := 0; i < N && found < 3; i++ {
+				v := h(key(i))
+				if j, ok := seen[v]; ok {
+					collidingPairs = append(collidingPairs, [2]string{key(int(j)), key(i)})
+					found++
+				} else {
+					seen[v] = int32(i)
+				}
+			}
+		}
+	})
+	return collidingPairs
+}
+
+// collidingFrames: valid frames that carry the strings of a colliding pair one after the other -
+// as user property key and value, reason string, topic name, client identifier - and both in
+// one packet.
+type carrierFrame struct {
+	hex     string
+	carries []string
+}
+
+func collidingFrames() []string {
+	var out []string
+	for _, cf := range collidingCarriers() {
+		out = append(out, cf.hex)
+	}
+	return out
+}
+
+func collidingCarriers() []carrierFrame {
+	str := func(s string) []byte { return append([]byte{byte(len(s) >> 8), byte(len(s))}, s...) }
+	frame := func(b0 byte, body []byte) string {
+		return hexs(append(append([]byte{b0}, vbEnc(uint64(len(body)))...), body...))
+	}
+	sect := func(props []byte) []byte { return append(vbEnc(uint64(len(props))), props...) }
+	up := func(k, v string) []byte { return append(append([]byte{0x26}, str(k)...), str(v)...) }
+	var out []carrierFrame
+	for _, pr := range collidingKeys() {
+		for _, s := range []string{pr[0], pr[1]} {
+			for _, h := range []string{
+				frame(0xe0, append([]byte{0}, sect(up(s, "v"))...)),
+				frame(0xf0, append([]byte{0x18}, sect(up("k", s))...)),
+				frame(0x40, append([]byte{0, 9, 0x10}, sect(append([]byte{0x1f}, str(s)...))...)),
+				frame(0x30, append(append(str(s), 0), 'p')),
+				frame(0x10, append([]byte{0, 4, 'M', 'Q', 'T', 'T', 5, 2, 0, 9, 0}, str(s)...)),
+				frame(0xa2, append([]byte{0, 9, 0}, str(s)...)),
+			} {
+				out = append(out, carrierFrame{h, []string{s}})
+			}
+		}
+		out = append(out, carrierFrame{frame(0xe0, append([]byte{0}, sect(append(up(pr[0], pr[1]), up(pr[1], pr[0])...))...)), []string{pr[0], pr[1]}})
+		out = append(out, carrierFrame{frame(0x82, append(append(append([]byte{0, 9, 0}, str(pr[0])...), 1), append(str(pr[1]), 2)...)), []string{pr[0], pr[1]}})
+	}
+	return out
 }
 
 func oracleC03(r *report, g *G, n int, single string) {
@@ -4225,6 +4528,40 @@ func oracleC03(r *report, g *G, n int, single string) {
 		f := strings.Fields(l)
 		if len(f) == 5 && f[0] == "V" {
 			check(f[1], f[2], f[3], f[4])
+		}
+	}
+	// strings that collide under common hash functions, decoded one after the other in this
+	// process: each frame still gives the values it carries (judged by the specification decoder)
+	cf := collidingFrames()
+	var in strings.Builder
+	for _, h := range cf {
+		in.WriteString("SD " + h + "\n")
+	}
+	if res, err := runModel(nil, in.String()); err != nil || len(res) != len(cf) {
+		r.fail("spec-judge-crashed", "modelrun SD", fmt.Sprintf("%v (%d of %d lines)", err, len(res), len(cf)))
+	} else {
+		for i, l := range res {
+			v := l[strings.IndexByte(l, '\t')+1:]
+			if !strings.HasPrefix(v, "P") {
+				r.fail("spec-selfcheck", "SR "+cf[i], "the specification decoder rejects a frame built from its text: "+v)
+				continue
+			}
+			want := ""
+			if parts := strings.SplitN(v, " ", 2); len(parts) == 2 {
+				want = parts[1]
+			}
+			if want == "." {
+				want = ""
+			}
+			f := unhex(cf[i])
+			c := "SR " + cf[i]
+			if i > 0 {
+				c = "SR " + cf[i-1] + " SR " + cf[i] // the frame decoded just before it in this process
+			}
+			if o := readOnce(oneChunk(f)); o.panic || o.kind != int(f[0]>>4) || o.snap != want {
+				r.fail("valid-frame-misread-after-another", c, "the last frame carries "+trunc(want)+", library: "+trunc(o.verdict()))
+			}
+			r.eval("colliding-strings", true, cf[i])
 		}
 	}
 	r.sample(map[string]string{"frame": "4003000110", "carries": "PUBACK id 1 reason 0x10, short form of length 3"})
@@ -4500,9 +4837,23 @@ func oracleC14(r *report, g *G, n int, single string) {
 				// panics are C04's business
 			}
 		}()
-		data := append([]byte{}, body...)
+		// the body lies inside a larger read buffer, the next frame right behind it: decoding -
+		// accepted or not - writes nothing into the buffer, inside or outside the slice it was given
+		big := bytesRepeat(0xa5, len(body)+48)
+		copy(big[16:], body)
+		orig := append([]byte{}, big...)
+		data := big[16 : 16+len(body)]
 		p := zeroPacket(k)
-		if err := p.UnmarshalBinary(data); err != nil {
+		err := p.UnmarshalBinary(data)
+		if !bytes.Equal(big, orig) {
+			at := 0
+			for at < len(big) && big[at] == orig[at] {
+				at++
+			}
+			r.fail("writes-input", c, fmt.Sprintf("UnmarshalBinary on a slice of a read buffer changed the buffer at offset %d relative to the slice (length %d): %02x became %02x", at-16, len(body), orig[at], big[at]))
+			return
+		}
+		if err != nil {
 			return
 		}
 		before := snapshot(p)
@@ -4528,6 +4879,28 @@ func oracleC14(r *report, g *G, n int, single string) {
 		return
 	}
 	scribble(0, []byte{1, 2, 3})
+	// every legal short form, and every type on an empty body
+	for _, k := range allKinds {
+		scribble(k, nil)
+		scribble(k, []byte{0x00})
+		scribble(k, []byte{0x00, 0x07})
+		scribble(k, []byte{0x00, 0x07, 0x00})
+		scribble(k, []byte{0x00, 0x07, 0x10, 0x00})
+	}
+	// strings that collide under common hash functions, decoded one after the other: a decoder
+	// that shares strings between packets by hash gives a packet the text of an earlier one
+	var prevHex string
+	for _, cf := range collidingCarriers() {
+		o := readOnce(oneChunk(unhex(cf.hex)))
+		for _, s := range cf.carries {
+			if o.kind < 0 || !strings.Contains(o.snap, hexs([]byte(s))) {
+				r.fail("decode-depends-on-history", "SR "+prevHex+" SR "+cf.hex, fmt.Sprintf("after the first frame the second, which carries %q, decodes to %s", s, trunc(o.verdict())))
+				break
+			}
+		}
+		r.eval("colliding-strings", true, cf.hex)
+		prevHex = cf.hex
+	}
 	// big fields: copy-avoiding shortcuts tend to be keyed on a size threshold
 	for _, sz := range []int{255, 256, 1023, 1024, 4095, 4096, 4097, 8192, 65535, 70000} {
 		pub := frameOf(build(3, []string{"SetTopicName:74", "SetPayload:" + hexs(bytesRepeat(0x61, sz))}))
